@@ -837,6 +837,18 @@ func genE2E(c *Ctx) {
 				val.L(val.N(2), val.N(500)), val.L(val.N(0), val.N(1), val.N(1004)))))
 		}
 	}
+	// directed: a ValidReplayer whose ring has grown (six and twelve events alive at once) is drained completely by the
+	// collection of the first Put after a quiet period longer than the TTL (it shrinks); then the client is cut and
+	// events are published while it is away
+	for _, burst := range []int{6, 12} {
+		for _, cut := range []val.V{val.L(val.N(1), val.N(0)), val.L(val.N(2), val.N(40)), val.L(val.N(3), val.N(1))} {
+			scen = append(scen, val.L(val.N(3), val.L(
+				val.L(val.N(0), val.Int(burst), val.N(0)), val.L(val.N(4)), val.L(val.N(5), val.N(1100)),
+				val.L(val.N(0), val.N(1), val.N(1)), val.L(val.N(4)),
+				cut, val.L(val.N(0), val.N(3), val.N(2)), val.L(val.N(4)),
+				val.L(val.N(5), val.N(600)), val.L(val.N(0), val.N(2), val.N(3)), val.L(val.N(1), val.N(10)), val.L(val.N(0), val.N(2), val.N(0)))))
+		}
+	}
 	// directed: refused publications between accepted ones, then cuts of every error character
 	for kind := 0; kind < 6; kind++ {
 		for _, char := range []int{0, 1 + kind} {
